@@ -216,6 +216,13 @@ impl TopicCleanTracker {
                 if pending.is_empty() {
                     continue;
                 }
+                #[cfg(walrus_verif)]
+                if crate::wal::verif_hooks::marker_persister_held() {
+                    if weak.upgrade().is_none() {
+                        break;
+                    }
+                    continue;
+                }
                 if let Some(strong) = weak.upgrade() {
                     if let Err(err) = strong.persist_topics(&pending) {
                         debug_print!("[clean] persist error: {}", err);
